@@ -81,6 +81,16 @@ def gen_buffers(rng, tier):
         b[8:16] = struct.pack('>Q', boff)
         b[16:20] = struct.pack('>I', blen)
         bufs.append(('backing', bytes(b)))
+    # the 104-byte form of the version 3 header (no compression type field): the first extension starts at 104
+    for cb in (9, 16):
+        for etype in (0x6803f857, 0xe2792aca, 0x12345678, 0x00000000):
+            for elen in (0, 8, 48, 96):
+                b = base_header(cb=cb, hl=104)
+                b[104:108] = struct.pack('>I', etype)
+                b[108:112] = struct.pack('>I', elen)
+                for i in range(112, 112 + elen):
+                    b[i] = 0x41
+                bufs.append(('hdr104', bytes(b)))
     # backing file name at, across and just beyond the end of the buffer that is handed in
     for cb in (9, 16):
         for trunc in (None, 512, 1024, 4096):
